@@ -5,6 +5,8 @@ presence assignment (sa/presence.py) and checked against the obligations of DESI
 """
 import itertools
 import os
+import re
+from .. import ir
 from .. import clangjson as cj
 from ..report import Report
 from ..presence import FlagMisuse, Evaluator, Obj, Unknown, is_opt_type, contains_v, fmt, COMPOUND_OPS
@@ -361,6 +363,42 @@ def check_noeval(rep, fn, where, scen, pmap, ev, ok, bad):
         ok("C04.noeval", "non-evaluation", nontrivial=bool(missing))
 
 
+NORETURN = {"__assert_fail", "__assert_perror_fail", "__assert", "abort", "terminate", "exit", "_Exit", "quick_exit", "__builtin_trap", "__builtin_abort", "__builtin_unreachable"}
+
+
+def rule_total(rep, d, std):
+    """no accessor, constructor, operator or lifted function of the optional / masked value has a failure exit: an operand that is missing must
+    give a missing result, so none of them may stop (assert - the analysis sees the bodies without NDEBUG -, abort, terminate) or throw"""
+    R = "C04.total"
+    n = 0
+    for f in ir.functions(d):
+        w = d.where(f) or ""
+        if not re.search(r"xtl/(xoptional|xoptional_meta|xmasked_value|xmasked_value_meta)\.hpp", w) or ir.body(f) is None:
+            continue
+        if not ir.is_template_pattern(d, f) and (ir.enclosing_class(d, f) or {}).get("kind") == "ClassTemplateSpecializationDecl":
+            continue                      # instantiations repeat their pattern
+        n += 1
+        bad = None
+        for x in ir.walk_expr(ir.body(f)):
+            if x.get("kind") == "CXXThrowExpr":
+                bad = (x, "throws")
+                break
+            if x.get("kind") == "CallExpr" and ir.ekids(x):
+                c = ir.strip(ir.ekids(x)[0])
+                nm = (c.get("referencedDecl") or {}).get("name") if c.get("kind") == "DeclRefExpr" else (c.get("name") if c.get("kind") in ("UnresolvedLookupExpr",) else None)
+                if nm in NORETURN:
+                    bad = (x, "calls %s()" % nm)
+                    break
+        if bad:
+            cls = ir.enclosing_class(d, f)
+            rep.violates(R, "%s%s" % ((cls.get("name") + "::") if cls else "", f.get("name")), "no failure exit", where=d.where(bad[0]), scenario="-std=%s" % std,
+                         detail="%s (`%s`): with a missing operand the operation must yield a missing result, not stop - the bodies are analysed without NDEBUG, "
+                                "as a build without it compiles them" % (bad[1], d.text(bad[0])[:70].replace("\n", " ")))
+    if n < 100:
+        raise cj.AnalysisBroken("C04.total: only %d function bodies of the optional / masked-value headers seen" % n)
+    rep.holds(R, "xoptional.hpp, xmasked_value.hpp", "no failure exit", scenario="-std=%s: %d function bodies" % (std, n), detail="no throw, assert or abort in any body")
+
+
 def run(tier):
     rep = Report("C04", tier, "proof",
                  "Abstract evaluation of every xoptional/xmasked_value overload body (template patterns, so never-instantiated "
@@ -379,6 +417,7 @@ def run(tier):
     rep.rule("C04.cassign", "compound assignment: new flag = conjunction of flags; target value changed only when all present; returns the target")
     rep.rule("C04.eq", "==/equal: both missing -> true, one missing -> false, both present -> equality of the values; != is its negation")
     rep.rule("C04.select", "select: missing condition -> missing; otherwise `cond ? v1 : v2` with the branches unchanged")
+    rep.rule("C04.total", "no function of the optional / masked-value headers has a failure exit (throw, assert without NDEBUG, abort/terminate): a missing operand gives a missing result")
     rep.rule("C04.valueor", "value_or returns the value when present and the default otherwise")
     stds = ["gnu++17"] if tier == "quick" else ["gnu++14", "gnu++17", "gnu++20"]
     for std in stds:
@@ -394,6 +433,7 @@ def run(tier):
                 continue
             nbody += 1
             check_function(rep, d, classes, n, cls, params, optp, cat)
+        rule_total(rep, d, std)
         rep.unit("-std=%s: %d in-scope overload bodies evaluated; out of scope by the frozen table: %s" % (
             std, nbody, ", ".join("%s x%d" % kv for kv in sorted(skipped.items()))))
         rep.holds("C04.eval", "all", "bodies interpreted", scenario="-std=%s: %d bodies" % (std, nbody), nontrivial=False)
